@@ -268,7 +268,8 @@ def averager():
 
 
 def tasks(tier):
-    return [('contracts.c20', 'throttle_step', ()), ('contracts.c20', 'averager', ())]
+    return [('contracts.c20', 'throttle_step', ()), ('contracts.c20', 'averager', ()),
+            ('contracts.traces', 'transact_block', ('C20',))]     # each throttle / averager step is one block
 
 
 def meta(results, tier):
